@@ -57,6 +57,18 @@ UNITS = {
             I(RAW, r'^impl RawTableInner$', 'find_or_find_insert_slot_inner', impl='RawTableInner'),
         ],
     ),
+    # C08 / C13 / C12: the growth decision of reserve_rehash_inner against the contracts of its callees
+    'grow': dict(
+        widths=[16, 8],
+        prelude='preludes/grow.rs',
+        specs='contracts/grow.vspec',
+        lemmas=[],
+        extra='grow_rules',
+        items=[
+            I(RAW, None, 'bucket_mask_to_capacity'),
+            I(RAW, r'^impl RawTableInner$', 'reserve_rehash_inner', impl='RawTableInner'),
+        ],
+    ),
     'arith': dict(
         widths=[16, 8],
         prelude='preludes/arith.rs',
@@ -220,6 +232,28 @@ def ctrl_rules(toks, i, out, hit):
         out.append(extract.T(')', ''))
         hit('R5_ctrl_pointer_read_to_indexed_read')
         return close + 1
+    return None
+
+
+def grow_rules(toks, i, out, hit):
+    """R8 for unit `grow`: opaque pass-through parameter types.
+       `&dyn Fn(&mut Self, usize) -> u64` -> `&HasherDyn`;  `Option<unsafe fn(*mut u8)>` -> `DropFn`."""
+    r = pow2_assert_rule(toks, i, out, hit)
+    if r is not None:
+        return r
+    t = toks[i]
+    n = len(toks)
+    txt = [x.text for x in toks[i:i + 16]]
+    if txt[:13] == ['dyn', 'Fn', '(', '&', 'mut', 'Self', ',', 'usize', ')', '-', '>', 'u64', ','] or \
+            txt[:12] == ['dyn', 'Fn', '(', '&', 'mut', 'Self', ',', 'usize', ')', '-', '>', 'u64']:
+        out.append(extract.T('HasherDyn', t.gap))
+        hit('R8_dyn_Fn_hasher_to_HasherDyn')
+        return i + 12
+    if txt[:11] == ['Option', '<', 'unsafe', 'fn', '(', '*', 'mut', 'u8', ')', '>', ','] or \
+            txt[:10] == ['Option', '<', 'unsafe', 'fn', '(', '*', 'mut', 'u8', ')', '>']:
+        out.append(extract.T('DropFn', t.gap))
+        hit('R8_option_drop_fn_to_DropFn')
+        return i + 10
     return None
 
 
